@@ -21,6 +21,55 @@ from common import runner, enginea
 from pysched import pysched
 
 
+class RacyArray(np.ndarray):
+    """numpy releases the GIL inside an in-place operation on a large array, so `a += b` on an array shared between
+    pool threads is a non-atomic read-modify-write.  Arrays the module allocates (np.zeros/empty/...) are of this
+    class during a simulated run: their in-place operators read a segment, offer a pre-emption point and write the
+    segment back, so a lost update is a schedule the simulator can choose.  Private arrays behave as usual."""
+    _sched = None
+    _segments = 2
+
+    def _inplace(self, ufunc, other):
+        s = RacyArray._sched
+        base = np.asarray(self)
+        if s is None or base.ndim == 0 or base.shape[0] < 2:
+            ufunc(base, other, out=base, casting="unsafe")
+            return self
+        n = base.shape[0]
+        k = min(RacyArray._segments, n)
+        o = np.asarray(other)
+        bounds = [n * i // k for i in range(k + 1)]
+        for a, b in zip(bounds[:-1], bounds[1:]):
+            ob = o[a:b] if (o.ndim == base.ndim and o.shape[0] == n) else o
+            tmp = ufunc(base[a:b], ob)
+            RacyArray.n_points += 1
+            s.point("inplace")
+            base[a:b] = tmp
+        return self
+    n_points = 0
+
+    def __iadd__(self, o): return self._inplace(np.add, o)
+    def __isub__(self, o): return self._inplace(np.subtract, o)
+    def __imul__(self, o): return self._inplace(np.multiply, o)
+    def __itruediv__(self, o): return self._inplace(np.true_divide, o)
+
+
+class NPRacy(object):
+    """numpy as roi_iradon sees it during a simulated run: allocations return RacyArray views"""
+    def __init__(self):
+        for name in ("zeros", "empty", "ones", "full", "zeros_like", "empty_like", "ones_like"):
+            setattr(self, name, self._wrap(getattr(np, name)))
+
+    @staticmethod
+    def _wrap(f):
+        def g(*a, **k):
+            return f(*a, **k).view(RacyArray)
+        return g
+
+    def __getattr__(self, name):
+        return getattr(np, name)
+
+
 class FuturesShim(object):
     def __init__(self, owner):
         self.ThreadPoolExecutor = lambda max_workers=None, **kw: owner.make_pool(max_workers)
@@ -79,7 +128,21 @@ class C19(object):
             off = rnd.uniform(-0.9, 0.9)
         workers = rnd.choice([1, 2, 2, 3, 4, 5, 7, 8, 11, 13, 16, nang + 3, None])  # None: "as many as the machine has"
         ncores = rnd.choice([1, 2, 3, 6, 16, 64])
-        return {"entry": "run_iradon", "ncores": ncores, "ystep": ystep, "ny": ny, "full": full, "nang": nang, "ymin": rnd.uniform(-5, 5) * ystep,
+        ymin = rnd.uniform(-5, 5) * ystep
+        if rnd.random() < 0.3:
+            # exactly representable geometry: the rotation axis can sit exactly on row ny/2 (shift == 0.0), on a row or
+            # half-way between rows
+            ymin = rnd.randint(-40, 10) * ystep
+            off = rnd.choice([0.5, 0.5, -0.5, 0.0, 1.5, -2.0, 1.0]) if full else rnd.choice([0.5, 0.5, -0.5, 0.0, 1.0])
+        gs_hist = None
+        if rnd.random() < 0.35:
+            # a GrainSinogram whose reconstruction parameters are updated as the estimate of y0 changes
+            gs_hist = [{"off": rnd.choice([rnd.uniform(-6, 6), rnd.choice([0.5, -0.5, 0.0, 2.5, -3.0]), None]),
+                        "how": rnd.choice(["update", "update", "update_partial", "attrs"]),
+                        "workers": rnd.choice([1, 1, 2, 3])} for _ in range(rnd.randint(1, 3))]
+        return {"entry": "run_iradon", "ncores": ncores, "ystep": ystep, "ny": ny, "full": full, "nang": nang, "ymin": ymin,
+                "zero_cols": rnd.choice(["none", "none", "halves", "random", "random", "one"]), "segments": rnd.choice([1, 2, 2, 3, 5]),
+                "gs_hist": gs_hist,
                 "y0_off_steps": off, "r_frac": rnd.uniform(0, 0.85), "phi": rnd.uniform(0, 2 * np.pi), "workers": workers,
                 "workers2": rnd.choice([1, 2, 3, 6]), "filter": rnd.choice(["hamming", "hamming", "ramp", "shepp-logan"]),
                 "lin_a": rnd.choice([2.0, -0.5, 3.25]), "mseed": rnd.getrandbits(32),
@@ -89,39 +152,98 @@ class C19(object):
     def describe(self, desc):
         return dict(desc)
 
-    def recon(self, sino, omega, pad, shift, workers, mask, desc, simulate):
+    def recon(self, sino, omega, pad, shift, workers, mask, desc, simulate, strategy=None, call=None):
         """run_iradon; with simulate the pool threads are scheduled by pysched"""
         ri = self.ri
         # workers <= 0 lets the module ask the machine: the simulated machine has desc["ncores"] cores
         saved_cores = ri.cImageD11.cores_available
         ri.cImageD11.cores_available = lambda: desc.get("ncores", 4)
         try:
-            return self._recon(sino, omega, pad, shift, workers, mask, desc, simulate)
+            return self._recon(sino, omega, pad, shift, workers, mask, desc, simulate, strategy, call)
         finally:
             ri.cImageD11.cores_available = saved_cores
 
-    def _recon(self, sino, omega, pad, shift, workers, mask, desc, simulate):
+    def _recon(self, sino, omega, pad, shift, workers, mask, desc, simulate, strategy=None, call=None):
         ri = self.ri
+        if call is None:
+            def call():
+                return ri.run_iradon(sino, omega, pad=pad, shift=shift, workers=workers, mask=mask, filter_name=desc["filter"])
         if not simulate or workers == 1 or (workers is None and desc.get("ncores", 1) == 1):
+            # no pool: the caller's thread does everything (the real pool, whose interleaving nobody decides, is never used)
+            assert workers == 1 or (workers is None and desc.get("ncores", 1) == 1)
             with contextlib.redirect_stdout(io.StringIO()):
-                return ri.run_iradon(sino, omega, pad=pad, shift=shift, workers=workers, mask=mask, filter_name=desc["filter"]), None
-        sched = pysched.Sched(desc["sseed"], strategy=desc["strategy"], p_inv=desc["p_inv"], quantum=desc["quantum"],
+                return np.asarray(call()), None
+        sched = pysched.Sched(desc["sseed"], strategy=strategy or desc["strategy"], p_inv=desc["p_inv"], quantum=desc["quantum"],
                               pct_d=desc["pct_d"], pct_est=20 * len(omega), step_cap=3000000, trace_files=[self.file],
                               replay=desc.get("replay"))
         self.sched = sched
         self.pool_calls = []
-        saved = ri.concurrent
+        saved, saved_np = ri.concurrent, ri.np
         out = {}
         try:
             ri.concurrent = ConcurrentShim(self)
+            ri.np = NPRacy()
+            RacyArray._sched, RacyArray._segments = sched, desc.get("segments", 2)
 
             def main():
                 with contextlib.redirect_stdout(io.StringIO()):
-                    out["r"] = ri.run_iradon(sino, omega, pad=pad, shift=shift, workers=workers, mask=mask, filter_name=desc["filter"])
+                    out["r"] = call()
             sched.run(main)
         finally:
-            ri.concurrent = saved
-        return out["r"], sched
+            ri.concurrent, ri.np = saved, saved_np
+            RacyArray._sched = None
+        return np.asarray(out["r"]), sched
+
+    def grainsino_history(self, desc, sino, omega, ny, ymin, ystep, y0, sx, sy, R, meas, V):
+        """one GrainSinogram object reconstructed several times while the estimate of y0 (hence shift and pad) is
+        revised; the last estimate is the true y0.  After each update the object holds the parameters it was given and
+        its reconstruction is the one run_iradon gives for those parameters (no state carried over from earlier
+        estimates); the last one puts the grain where the geometry says."""
+        import ImageD11.grain
+        from ImageD11.sinograms import sinogram, dataset
+        geo = self.geo
+        with contextlib.redirect_stdout(io.StringIO()):
+            gs = sinogram.GrainSinogram(ImageD11.grain.grain(np.eye(3)), dataset.DataSet())
+        gs.ssino, gs.sinoangles, gs.sino = sino, omega, sino
+        steps = list(desc["gs_hist"]) + [{"off": None, "how": "update", "workers": desc["gs_hist"][-1]["workers"]}]
+        mid = ymin + (ny - 1) / 2.0 * ystep
+        meas["gs_steps"] = len(steps)
+        for k, st in enumerate(steps):
+            y0k = y0 if st["off"] is None else mid + st["off"] * ystep
+            shift, pad = geo.sino_shift_and_pad(y0k, ny, ymin, ystep)
+            if shift == 0:
+                meas["gs_shift_exactly_zero"] = meas.get("gs_shift_exactly_zero", 0) + 1
+            if y0k == 0:
+                meas["gs_y0_exactly_zero"] = meas.get("gs_y0_exactly_zero", 0) + 1
+            if st["how"] == "update":
+                gs.update_recon_parameters(pad=pad, shift=shift, y0=y0k)
+            elif st["how"] == "update_partial":
+                gs.update_recon_parameters(pad=pad)
+                gs.update_recon_parameters(y0=y0k, shift=shift)
+            else:
+                gs.recon_pad, gs.recon_shift, gs.recon_y0 = pad, shift, y0k
+            held = (gs.recon_pad, gs.recon_shift, gs.recon_y0)
+            if not (held[0] == pad and held[1] == shift and held[2] == y0k):
+                return V("stale-recon-parameters", "step %d of %d on one GrainSinogram: given pad %s shift %r y0 %r, the object holds "
+                                                   "pad %s shift %r y0 %r" % (k, len(steps), pad, shift, y0k, held[0], held[1], held[2]))
+            w = st["workers"]
+            want, _ = self.recon(sino, omega, int(pad), shift, 1, None, desc, simulate=False)
+            got, _ = self.recon(sino, omega, pad, shift, w, None, desc, simulate=(w != 1), strategy="rr",
+                                call=lambda: gs.recon(method="iradon", workers=w, filter_name=desc["filter"]))
+            mx = float(np.abs(want).max())
+            d = float(np.abs(got - want).max()) if got.shape == want.shape else float("inf")
+            if not d <= 1e-10 * mx:
+                return V("history-dependent", "step %d of %d on one GrainSinogram (pad %s shift %r): its reconstruction differs from "
+                                              "run_iradon with these parameters by %.3g (max %.3g)" % (k, len(steps), pad, shift, d, mx))
+            if gs.recons.get("iradon") is not got and not np.array_equal(np.asarray(gs.recons.get("iradon")), got):
+                return V("history-dependent", "GrainSinogram.recons['iradon'] is not the reconstruction just returned")
+        rs_i, rs_j = geo.step_to_recon(*geo.sample_to_step(sx, sy, ystep), recon_shape=got.shape)
+        mi, mj = np.unravel_index(np.argmax(got), got.shape)
+        dist = float(np.hypot(mi - rs_i, mj - rs_j))
+        if R >= 3 and dist > 1.5:
+            return V("grain-misplaced", "GrainSinogram after %d parameter updates: grain at (%d, %d), predicted (%.2f, %.2f): %.2f px" %
+                     (len(steps), mi, mj, rs_i, rs_j, dist))
+        return None
 
     def execute(self, desc, ctx):
         geo = self.geo
@@ -172,38 +294,50 @@ class C19(object):
         sched = None
         dig = []
         nontrivial = False
+        mt = workers != 1 and not (workers is None and desc.get("ncores", 1) == 1)
         if viol is None:
             try:
-                ref, _ = self.recon(sino, omega, pad, shift, workers, None, desc, simulate=False)       # native pool, real threads
-                sim, sched = self.recon(sino, omega, pad, shift, workers, None, desc, simulate=True)    # simulated pool
+                ref, _ = self.recon(sino, omega, pad, shift, 1, None, desc, simulate=False)             # one thread, no pool
+                if mt:
+                    sim0, _ = self.recon(sino, omega, pad, shift, workers, None, desc, simulate=True, strategy="rtc")
+                    sim, sched = self.recon(sino, omega, pad, shift, workers, None, desc, simulate=True)
+                else:
+                    sim0 = sim = ref
             except pysched.Deadlock as e:
                 viol = V("deadlock", str(e))
             except pysched.StepCap as e:
                 viol = V("no-progress", str(e))
             except Exception as e:
+                if runner.is_harness_exception(e):
+                    raise
                 viol = V("raises", "run_iradon raised %s: %s (shift %.2f pad %d)" % (type(e).__name__, e, shift, pad))
+        mx = float(np.abs(ref).max()) if viol is None else 1.0
         if viol is None:
             nontrivial = (workers or desc.get("ncores", 1)) >= 2
             dig.append(enginea.sha(sim))
             if sched is not None:
                 meas["steps"], meas["switches"] = sched.steps, sched.switches
                 meas["pool_threads_spawned"] = len(sched.threads) - 1
+                meas["inplace_points"] = RacyArray.n_points
             # the statement asks for independence of the schedule to floating point accuracy (summing the partial
             # results in completion order would be legitimate); on the current code the results are even bitwise equal
-            meas["bitwise_equal_to_real_pool"] = 1 if sim.tobytes() == ref.tobytes() else 0
-            dmax = float(np.abs(sim - ref).max())
-            if not dmax <= 1e-10 * float(np.abs(ref).max()):
-                viol = V("schedule-dependent", "workers=%s: the reconstruction under the simulated schedule (%s) differs "
-                                               "from the one with the real pool by %.3g (max |recon| %.3g)" %
-                         (workers, desc["strategy"], dmax, float(np.abs(ref).max())))
-        mx = float(np.abs(ref).max()) if viol is None else 1.0
+            meas["bitwise_equal_across_schedules"] = 1 if sim.tobytes() == sim0.tobytes() else 0
+            dmax = float(np.abs(sim - sim0).max())
+            if not dmax <= 1e-10 * mx:
+                viol = V("schedule-dependent", "workers=%s: the reconstruction under the seeded schedule (%s) differs "
+                                               "from the one where each pool thread runs to completion by %.3g (max |recon| %.3g)" %
+                         (workers, desc["strategy"], dmax, mx))
         if viol is None:
             # (2) worker counts
-            other, _ = self.recon(sino, omega, pad, shift, desc["workers2"], None, desc, simulate=False)
-            d = np.abs(other - ref).max()
-            if d > 1e-10 * mx:
-                viol = V("worker-count-dependent", "workers=%s and workers=%s differ by %.3g (max |recon| %.3g)" %
-                         (workers, desc["workers2"], d, mx))
+            d = float(np.abs(sim - ref).max())
+            if not d <= 1e-10 * mx:
+                viol = V("worker-count-dependent", "workers=%s and workers=1 differ by %.3g (max |recon| %.3g)" % (workers, d, mx))
+        if viol is None and desc["workers2"] != 1:
+            other, _ = self.recon(sino, omega, pad, shift, desc["workers2"], None, desc, simulate=True, strategy="rr")
+            d = float(np.abs(other - ref).max())
+            if not d <= 1e-10 * mx:
+                viol = V("worker-count-dependent", "workers=%s and workers=1 differ by %.3g (max |recon| %.3g)" %
+                         (desc["workers2"], d, mx))
         if viol is None:
             # (5) where the grain lands
             rs_i, rs_j = geo.step_to_recon(*geo.sample_to_step(sx, sy, ystep), recon_shape=ref.shape)
@@ -218,24 +352,40 @@ class C19(object):
             # (3) ROI
             mask = g.random(ref.shape) < 0.15
             mask[max(0, int(rs_i) - 3):int(rs_i) + 4, max(0, int(rs_j) - 3):int(rs_j) + 4] = True
-            roi, sch2 = self.recon(sino, omega, pad, shift, workers, mask, desc, simulate=True)
+            roi, sch2 = self.recon(sino, omega, pad, shift, workers, mask, desc, simulate=mt)
             d = np.abs(roi[mask] - ref[mask]).max()
-            if d > 1e-10 * mx:
+            if not d <= 1e-10 * mx:
                 viol = V("roi-dependent", "restricting the reconstruction to a region-of-interest mask changes the values on the mask "
                                           "by %.3g (max |recon| %.3g; shift %.2f px, pad %d, workers %s)" % (d, mx, shift, pad, workers))
             elif np.abs(roi[~mask]).max() != 0:
                 viol = V("roi-dependent", "pixels outside the mask are not zero")
             dig.append(enginea.sha(roi))
         if viol is None:
-            # (4) linearity
-            s2 = g.random(sino.shape)
+            # (4) linearity, also for sinograms in which some projections are empty (a grain that leaves the scanned range,
+            # half of a scan, a masked sub-range): f(a*s1 + s2) = a*f(s1) + f(s2)
+            s1, s2 = sino.copy(), g.random(sino.shape)
+            zc = desc.get("zero_cols", "none")
+            if zc == "halves":
+                h = sino.shape[1] // 2
+                s1[:, h:] = 0
+                s2[:, :h] = 0
+            elif zc == "random":
+                s1[:, g.random(sino.shape[1]) < 0.3] = 0
+                s2[:, g.random(sino.shape[1]) < 0.3] = 0
+            elif zc == "one":
+                s2[:, int(g.integers(sino.shape[1]))] = 0
+            meas["zero_cols"] = {zc: 1}
             a = desc["lin_a"]
-            r2, _ = self.recon(s2, omega, pad, shift, workers, None, desc, simulate=False)
-            r12, _ = self.recon(a * sino + s2, omega, pad, shift, workers, None, desc, simulate=False)
-            d = np.abs(r12 - (a * ref + r2)).max()
-            lim = 1e-10 * max(mx * abs(a), float(np.abs(r2).max()), 1.0)
-            if d > lim:
-                viol = V("not-linear", "iradon(a*s1+s2) differs from a*iradon(s1)+iradon(s2) by %.3g (limit %.3g)" % (d, lim))
+            r1, _ = self.recon(s1, omega, pad, shift, 1, None, desc, simulate=False)
+            r2, _ = self.recon(s2, omega, pad, shift, 1, None, desc, simulate=False)
+            r12, _ = self.recon(a * s1 + s2, omega, pad, shift, 1, None, desc, simulate=False)
+            d = np.abs(r12 - (a * r1 + r2)).max()
+            lim = 1e-10 * max(float(np.abs(r1).max()) * abs(a), float(np.abs(r2).max()), 1.0)
+            if not d <= lim:
+                viol = V("not-linear", "iradon(a*s1+s2) differs from a*iradon(s1)+iradon(s2) by %.3g (limit %.3g; empty "
+                                       "projections: %s)" % (d, lim, zc))
+        if viol is None and desc.get("gs_hist"):
+            viol = self.grainsino_history(desc, sino, omega, ny, ymin, ystep, y0, sx, sy, R, meas, V)
         sig = "%s/%s/%s" % (enginea.sha(ystep, ny, desc["full"], desc["nang"], desc["y0_off_steps"], desc["r_frac"], desc["phi"]),
                             workers, sched.sched_sig() if sched is not None else "-")
         return {"digest": enginea.sha(dig, sched.digest() if sched is not None else None), "sig": sig,
